@@ -1,5 +1,5 @@
 """C10 - resizing preserves submitted work and surviving workers, and terminates."""
-from .base import Prop, V, gen_knobs, gen_model, submit_op, hang_violations
+from .base import focus_hot, Prop, V, gen_knobs, gen_model, submit_op, hang_violations
 from . import execfam as X
 
 
@@ -42,6 +42,7 @@ def gen(rng, tier):
     if timeout is not None and timeout < 1 and rng.random() < 0.6:
         kn["J"] = rng.choice([0.05, 1.0])
         kn["p_time"] = rng.choice([0.05, 0.2])
+    kn = focus_hot(rng, kn, threads)
     return dict(family="resize", knobs=kn, model=gen_model(rng), threads=threads, faults=faults, old=old, new=new)
 
 
